@@ -148,7 +148,7 @@ class Gen:
     # ------------------------------------------------------------------ trees
     KINDS = ['T', 'l', 'D', 'O', 'DD', 'Q', 'NT', 'SS', 'U', 'N', 'L']
 
-    def tree(self, depth=4, width=4, kinds=None, weights=None, quirks=False, leaf_p=0.35,
+    def tree(self, depth=4, width=4, kinds=None, weights=None, quirks=False, leaf_p=0.06,
              key_style=None):
         rng = self.rng
         kinds = kinds or self.KINDS
@@ -160,7 +160,7 @@ class Gen:
         kind = rng.choices(kinds, weights=weights)[0] if weights else rng.choice(kinds)
 
         def sub():
-            return self.tree(depth - 1, width, kinds, weights, quirks, leaf_p + 0.1, key_style)
+            return self.tree(depth - 1, width, kinds, weights, quirks, min(0.55, leaf_p + 0.17), key_style)
 
         def nkids():
             return rng.choice([0, 1, 1, 2, 2, 2, 3, 3, width])
